@@ -77,6 +77,8 @@ def run_case(case, built=None, keep_obs=False):
         start_gated=case.get('start_gated', False), sequential=(shape == 'seq'))
     findings = []
     findings += monitors.check_termination(obs)
+    fd, ndisp = monitors.check_dispatch(obs, prog)
+    findings += fd
     guards = monitors.lazy_guards(prog)
     refs = {}
     stats = {'steps': obs.steps, 'choice_points': obs.choice_points, 'quiescent': obs.quiescent_points,
